@@ -1,8 +1,10 @@
 (* Extract_dist.v -- extraction of the distributed-layer models (C11) to OCaml.
-   Directives: ExtractCommon.v (trusted base, DESIGN.md section 6). *)
+   Directives: ExtractCommon.v (trusted base, DESIGN.md section 6).
+   BlockInst / BlockKernels: the static_matrix<T,b,b> Scalar instance and the rhs-block inner product; the Dist.v model
+   functions are run at BlockInst.BlockS QcS b by ocaml/dist/ops_dist_block.ml (C11 at block value types). *)
 From Amgcl Require Import ExtractCommon.
 From Coq Require Import QArith Qcanon.
-From Amgcl Require Import Scalar QcInst Vec Crs Kernels MatOps Cheby Dist DistMsg DistMove.
+From Amgcl Require Import Scalar QcInst Vec Crs Kernels MatOps Cheby Dist DistMsg DistMove DirectUtil Inverse StaticMat BlockInst BlockKernels.
 Separate Extraction
   QcInst.QcS Scalar.is_zero Scalar.smax Scalar.smin
-  Vec Crs Kernels MatOps Cheby Dist DistMsg DistMove.
+  Vec Crs Kernels MatOps Cheby Dist DistMsg DistMove StaticMat BlockInst BlockKernels.
